@@ -1,7 +1,18 @@
 import Robust.Api.Model
+import Robust.Irc.Proofs.FrmCheck
 import Robust.Gen.Exprs
 /-!
 # C16 — only valid current-revision config updates take effect, the same on all nodes
+
+Part 1 (decision level): the POST /config handler and the Config case of the state machine.
+
+Part 2 (frame): the replicated configuration changes **only** through Config entries and GLINE.
+Every handler of the command table other than `cmdGline` leaves `St.config` alone
+(`C16_handlers_keep_config`); `cmdGline` changes nothing but `banned`, by one entry, and only for
+an IRC operator (`C16_gline_only_bans`); per entry (`C16_entry_config_cases`,
+`C16_entry_keeps_config`) and for the Config entry itself (`C16_config_entry_frame`: the new
+configuration is the posted one with the entry's revision, and nothing else of the state changes).
+Helpers: `Robust/Irc/Proofs/Frm*.lean`.
 -/
 namespace Robust.Props.C16
 open Robust Robust.Irc Robust.Api
@@ -71,5 +82,141 @@ theorem C16_wiring :
     Gen.Exprs.fact "config.msg.Revision" = "revision + 1" ∧
     Gen.Exprs.fact "config.msg.Data" = "body" ∧
     Gen.Exprs.fact "config.msg.Type" = "robust.Config" := by decide
+
+/-! ## Part 2 — only Config entries and GLINE write the configuration -/
+
+/-- **Frame, handlers.** Every handler of the command table other than `cmdGline` — client and
+services handlers alike — returns with the configuration it was called with.
+(`SessWf` and `reply = 0` are the hypotheses of the common frame walk of `Frm*.lean`, which
+carries markers, stored ids, `lastProcessed` and the configuration together.) -/
+theorem C16_handlers_keep_config {fname : String} {h : Handler} (hh : handlerByName fname = some h)
+    (hg : fname ≠ "cmdGline") {c c' : Ctx} {sid : Id} {m : IrcMsg} (h0 : sid.reply = 0) (hw : SessWf c.st)
+    (hr : h c sid m = .ok c') : c'.st.config = c.st.config :=
+  (handler_fpres hh hg c.st c sid m c' h0 (Frm.refl hw) hr).config
+
+/-- **GLINE.** `cmdGline` either leaves the configuration alone (not an operator, unknown nick, no
+address known) or — the actor is an IRC operator — sets exactly one entry of `banned`: the address of
+the session indexed under the first parameter ↦ the reason. -/
+theorem C16_gline_only_bans {c c' : Ctx} {sid : Id} {m : IrcMsg} (hw : SessWf c.st)
+    (hr : cmdGline c sid m = .ok c') :
+    c'.st.config = c.st.config ∨
+    ∃ s p0 tid t, AMap.get c.st.sessions sid = some s ∧ s.operator = true ∧ param m 0 = .ok p0 ∧
+      AMap.get c.st.nicks (nickToLower p0) = some tid ∧ AMap.get c.st.sessions tid = some t ∧
+      t.remoteAddr ≠ "" ∧
+      c'.st.config = { c.st.config with banned := AMap.set c.st.config.banned t.remoteAddr m.trailing } :=
+  (cmdGline_spec hw hr).2
+
+/-- … in particular everything but `banned` (revision, operators, services passwords, limits,
+expiration, captcha, trusted bridges, allowed origins) is untouched by GLINE, and a non-operator
+cannot change anything -/
+theorem C16_gline_rest_kept {c c' : Ctx} {sid : Id} {m : IrcMsg} (hw : SessWf c.st)
+    (hr : cmdGline c sid m = .ok c') :
+    { c'.st.config with banned := [] } = { c.st.config with banned := [] } ∧
+    (∀ s, AMap.get c.st.sessions sid = some s → s.operator = false → c'.st.config = c.st.config) := by
+  rcases C16_gline_only_bans hw hr with h | ⟨s, _, _, _, hs, hop, _, _, _, _, h⟩
+  · exact ⟨by rw [h], fun _ _ _ => h⟩
+  · refine ⟨by rw [h], fun s' hs' hno => ?_⟩
+    rw [hs] at hs'; cases hs'
+    rw [hop] at hno; cases hno
+
+/-- **Entries.** An entry other than a Config entry leaves the configuration alone, or it is a client
+entry whose line is a `GLINE` of a session that is an IRC operator, and one ban was added. -/
+theorem C16_entry_config_cases {st st' : St} {e : Entry} {out : List Out} (hw : SessWf st) (he : EntryOk st e)
+    (h6 : e.type ≠ 6) (hr : applyEntry st e = .ok (st', out)) :
+    st'.config = st.config ∨
+    ∃ m s addr reason, e.type = 2 ∧ parseMessage e.data = some m ∧ toUpper m.command = "GLINE" ∧
+      AMap.get st.sessions e.session = some s ∧ s.operator = true ∧
+      st'.config = { st.config with banned := AMap.set st.config.banned addr reason } :=
+  applyEntry_config_cases hw he.1 h6 hr
+
+/-- For entry types other than 6 and other than a type-2 GLINE by an operator: `st'.config = st.config`. -/
+theorem C16_entry_keeps_config {st st' : St} {e : Entry} {out : List Out} (hw : SessWf st) (he : EntryOk st e)
+    (h6 : e.type ≠ 6)
+    (hng : ¬(e.type = 2 ∧ ∃ m s, parseMessage e.data = some m ∧ toUpper m.command = "GLINE" ∧
+      AMap.get st.sessions e.session = some s ∧ s.operator = true))
+    (hr : applyEntry st e = .ok (st', out)) : st'.config = st.config := by
+  rcases C16_entry_config_cases hw he h6 hr with h | ⟨m, s, _, _, h2, hm, hc, hs, hop, _⟩
+  · exact h
+  · exact absurd ⟨h2, m, s, hm, hc, hs, hop⟩ hng
+
+/-- **Config entry (type 6)** with a configuration that parses: the new configuration is the posted
+one with the entry's revision, nothing else of the state changes (sessions, nick index, channels,
+SVSHOLDs, services links, `lastProcessed`, server name), and nothing is sent. -/
+theorem C16_config_entry_frame {st st' : St} {e : Entry} {out : List Out} {cfg : Config} (ht : e.type = 6)
+    (hc : e.cfg = some cfg) (hr : applyEntry st e = .ok (st', out)) :
+    st' = { st with config := { cfg with revision := e.rev } } ∧ out = [] ∧
+    st'.sessions = st.sessions ∧ st'.nicks = st.nicks ∧ st'.channels = st.channels ∧
+    st'.svsholds = st.svsholds ∧ st'.lastProcessed = st.lastProcessed := by
+  obtain ⟨h1, h2⟩ := applyEntry_config ht hr
+  rw [hc] at h1
+  subst h1
+  exact ⟨rfl, h2, rfl, rfl, rfl, rfl, rfl⟩
+
+/-- Along a history without Config entries and without GLINEs the configuration never changes. -/
+theorem C16_history_keeps_config {st st' : St} {es : List Entry} (hw : SessWf st) (hwf : WfHistory st es)
+    (hq : ∀ e ∈ es, e.type ≠ 6 ∧ ∀ m, parseMessage e.data = some m → toUpper m.command ≠ "GLINE")
+    (hr : runEntries st es = .ok st') : st'.config = st.config := by
+  induction es generalizing st with
+  | nil => cases hr; rfl
+  | cons e es ih =>
+    unfold runEntries at hr
+    obtain ⟨he, _, hnext⟩ := hwf
+    split at hr
+    · rename_i st1 out hap
+      have h1 := hq e (List.mem_cons_self ..)
+      have hc : st1.config = st.config :=
+        C16_entry_keeps_config hw he h1.1 (fun ⟨_, m, _, hm, hcmd, _⟩ => h1.2 m hm hcmd) hap
+      rw [← hc]
+      exact ih (hw.applyEntry he.1 hap) (hnext st1 out hap) (fun e' he' => hq e' (List.mem_cons_of_mem _ he')) hr
+    · cases hr
+    · cases hr
+
+/-! ### non-vacuity -/
+
+def exAlice : Session :=
+  { id := ⟨1, 0⟩, nick := "alice", username := "al", loggedIn := true, channels := ["#c"], operator := true,
+    ircPrefix := ⟨"alice", "al", "robust/0x1"⟩ }
+def exBob : Session :=
+  { id := ⟨2, 0⟩, nick := "Bob", username := "bo", loggedIn := true, channels := ["#c"], remoteAddr := "10.0.0.2",
+    ircPrefix := ⟨"Bob", "bo", "robust/0x2"⟩ }
+def exChanC : Channel := { name := "#c", nicks := [("alice", { chanop := true }), ("bob", {})], modes := ['n', 't'] }
+/-- alice (IRC operator) and Bob (address known) on `#c`; revision 3 -/
+def exSt : St :=
+  { sessions := [(⟨1, 0⟩, exAlice), (⟨2, 0⟩, exBob)]
+    nicks := [("alice", ⟨1, 0⟩), ("bob", ⟨2, 0⟩)]
+    channels := [("#c", exChanC)]
+    config := { revision := 3, operators := [("root", "pw")] } }
+def mkE (type id : Nat) (session : Id) (data : String) : Entry :=
+  { type := type, id := id, session := session, data := data, unixNano := 0, cmid := id, rev := 0,
+    remoteAddr := "", cfg := none }
+
+theorem exSt_inv : GPInv exSt := ginv_of_ginvB (by decide)
+
+/-- the operator's GLINE adds exactly the ban and keeps the rest; Bob's GLINE changes nothing;
+a line that does change the state a lot (KILL) keeps the configuration -/
+theorem C16_example_gline :
+    (resSt (applyEntry exSt (mkE 2 10 ⟨1, 0⟩ "GLINE bob :spam"))).config =
+      { exSt.config with banned := [("10.0.0.2", "spam")] } ∧
+    (applyEntry exSt (mkE 2 10 ⟨2, 0⟩ "GLINE alice :spam")).isOk = true ∧
+    (resSt (applyEntry exSt (mkE 2 10 ⟨2, 0⟩ "GLINE alice :spam"))).config = exSt.config ∧
+    (applyEntry exSt (mkE 2 10 ⟨1, 0⟩ "KILL bob :bye")).isOk = true ∧
+    (resSt (applyEntry exSt (mkE 2 10 ⟨1, 0⟩ "KILL bob :bye"))).config = exSt.config :=
+  ⟨by decide +kernel, by decide +kernel, by decide +kernel, by decide +kernel, by decide +kernel⟩
+
+/-- `C16_entry_keeps_config` instantiated: hypotheses hold for Bob's `PRIVMSG`, the entry applies -/
+example : (resSt (applyEntry exSt (mkE 2 10 ⟨2, 0⟩ "PRIVMSG #c :hi"))).config = exSt.config := by
+  have hok : (applyEntry exSt (mkE 2 10 ⟨2, 0⟩ "PRIVMSG #c :hi")).isOk = true := by decide +kernel
+  refine C16_entry_keeps_config exSt_inv.sessWf (entryOk_of_B (by decide)) (by decide) ?_ (eq_ok_of_isOk hok)
+  rintro ⟨_, m, s, hm, hc, _⟩
+  have : parseMessage "PRIVMSG #c :hi" = some ⟨none, "PRIVMSG", ["#c", "hi"]⟩ := by decide +kernel
+  rw [show (mkE 2 10 ⟨2, 0⟩ "PRIVMSG #c :hi").data = "PRIVMSG #c :hi" from rfl, this] at hm
+  cases hm
+  exact absurd hc (by decide +kernel)
+
+/-- a Config entry: revision and contents replaced, sessions untouched -/
+theorem C16_example_config_entry :
+    let e : Entry := { mkE 6 11 ⟨0, 0⟩ "…toml…" with rev := 4, cfg := some { maxChannels := 5 } }
+    (resSt (applyEntry exSt e)).config = { maxChannels := 5, revision := 4 } ∧
+    (resSt (applyEntry exSt e)).sessions = exSt.sessions := by decide +kernel
 
 end Robust.Props.C16
